@@ -261,7 +261,7 @@ def _program(prog_idx):
     states = e2.prefix_states(pp, vidx, program)
     b = e2.bake(pp, vidx, program)
     subs = b['subs']
-    names = set(subs) | set(e2.SPEC) | set(e2.CREATED)
+    names = set(subs) | set(e2.SPEC) | set(e2.CREATED) | {'A2'}
     out, ntok = [], 0
     i = len(program) - 1          # every step is judged once, when it is the last step of its program
     act = program[i]
